@@ -43,9 +43,13 @@ impl C07 {
         }
         let post = p.snap();
         let mut spend_of_call: std::collections::BTreeMap<String, u128> = Default::default();
-        let was_admin_any = pre.admins.iter().any(|a| a == sender);
+        // authority comes from the admin set as requested (instantiate / authorised UpdateAdmins), not from what is stored
+        let was_admin_any = match &shadow.admins {
+            Some(a) => a.iter().any(|x| x == sender),
+            None => pre.admins.iter().any(|a| a == sender),
+        };
         if let Op::Execute { msgs } = op {
-            let is_admin = pre.admins.iter().any(|a| a == sender);
+            let is_admin = was_admin_any;
             let was_admin_class = if is_admin { "admin" } else if pre.raw.contains_key(sender) || pre.perms.contains_key(sender) { "subkey" } else { "stranger" };
             let (verdict, reason) = if is_admin {
                 (Tri::Allow, "admin")
@@ -114,6 +118,13 @@ impl C07 {
         if r.is_ok() && p.kind == Kind::Subkeys {
             shadow.apply(sender, op, was_admin_any, &spend_of_call, height, now);
         }
+        if r.is_ok() && was_admin_any && shadow.mutable {
+            match op {
+                Op::UpdateAdmins { admins } => shadow.admins = Some(admins.clone()),
+                Op::Freeze => shadow.mutable = false,
+                _ => {}
+            }
+        }
         *pre = post;
         true
     }
@@ -128,6 +139,14 @@ pub fn reset_shadow() {
     SHADOW.with(|s| *s.borrow_mut() = Shadow::default());
 }
 
+fn shadow_instantiated(admins: &[String], mutable: bool) {
+    SHADOW.with(|s| {
+        let mut s = s.borrow_mut();
+        s.admins = Some(admins.to_vec());
+        s.mutable = mutable;
+    });
+}
+
 impl C07 {
     /// cumulative coverage inside one call and across calls, forbidden message first/middle/last
     fn directed(&self, h: &mut Hist) {
@@ -138,6 +157,7 @@ impl C07 {
         if !p.instantiate(vec![admin.clone()], true).is_ok() {
             return;
         }
+        shadow_instantiated(&[admin.clone()], true);
         let mut pre = p.snap();
         let send = |amt: u128, d: &str| -> CosmosMsg { BankMsg::Send { to_address: to.clone(), amount: vec![coin(amt, d)] }.into() };
         let burn: CosmosMsg = BankMsg::Burn { amount: vec![coin(1, "uatom")] }.into();
@@ -188,6 +208,7 @@ impl C07 {
         if !p.instantiate(vec![admin.clone()], true).is_ok() {
             return;
         }
+        shadow_instantiated(&[admin.clone()], true);
         let mut pre = p.snap();
         let send = |amt: u128, d: &str| -> CosmosMsg { BankMsg::Send { to_address: to.clone(), amount: vec![coin(amt, d)] }.into() };
         let by_time = h.idx % 2 == 1;
@@ -299,6 +320,10 @@ impl Monitor for C07 {
         h.note(format!("{kind:?} instantiate admins={admins:?} mutable={mutable} => {}", r.class()));
         if !r.is_ok() {
             return;
+        }
+        shadow_instantiated(&admins, mutable);
+        if admins.is_empty() {
+            h.out.count("proxies_instantiated_without_any_admin");
         }
         let mut pre = p.snap();
         let n = h.tier.pick(60, 100);
